@@ -275,7 +275,7 @@ class Session:
         self.ctl = make_controller(self.cfg, self.csv, self.sdir, self.entries)
         return self.ctl
 
-    def epoch(self, train, val, **user):
+    def epoch(self, train, val, /, **user):
         e = self.ctl.get_last_epoch() + 1
         train_step(self.model, self.opt, e, train, val)
         return self.ctl.update_for_epoch(self.model, self.opt, train, val, **user)
